@@ -31,8 +31,10 @@ func init() {
 
 var c13names = []string{"origin.example", "a.example:8448", "10.1.2.3", "10.1.2.3:8008", "[2001:db8::1]", "[::1]:8448", "xn--e1afmkfd.example", "UPPER.example", "h-y.phen.example"}
 var c13paths = []string{"/_matrix/federation/v1/send/1234", "/_matrix/federation/v2/send_join/%21room%3Aa.example/%24ev", "/_matrix/key/v2/server", "/a%2Fb/c", "/_matrix/federation/v1/event/$abc:def",
-	"/p/%C3%A9", "/with%20space", "/_matrix/federation/v1/query/directory", "/", "/x/y/z/"}
-var c13queries = []string{"", "", "?room_alias=%23a%3Ab", "?a=1&b=2", "?ver=1&ver=2&ver=10", "?q=", "?x=%2F%3F", "?e=%C3%A9", "?", "?&", "?flag", "?=1", "?q=caf\uFFFD", "?r=\uFFFD\uFFFD&s=1",
+	"/p/%C3%A9", "/with%20space",
+	// escapes that decode to bytes that are no UTF-8: the URI as transmitted (and signed) is plain ASCII all the same
+	"/p/caf%E9", "/%FF/x", "/lone/%C3", "/_matrix/media/v3/download/a.example/%80%81", "/_matrix/federation/v1/query/directory", "/", "/x/y/z/"}
+var c13queries = []string{"", "", "?room_alias=%23a%3Ab", "?a=1&b=2", "?ver=1&ver=2&ver=10", "?q=", "?x=%2F%3F", "?e=%C3%A9", "?e=%E9", "?%FF=%FE", "?", "?&", "?flag", "?=1", "?q=caf\uFFFD", "?r=\uFFFD\uFFFD&s=1",
 	// raw blanks: no request line can carry them, so HTTPRequest has to refuse (or escape) them
 	"?field=a b", "? ", "?x=1 HTTP/1.1"}
 
